@@ -789,12 +789,12 @@ def _sort_lins(ls, F):
     for x in ls:
         i = 0
         while i < len(out):
-            c = F.cmp(x, out[i])
-            if c is None:
-                raise Undecided("cannot order boundaries %r, %r" % (x, out[i]))
-            if c <= 0:
+            if F.le(out[i], x):
+                i += 1
+                continue
+            if F.le(x, out[i]):
                 break
-            i += 1
+            raise OrderFail(x, out[i])
         out.insert(i, x)
     return out
 
@@ -893,23 +893,27 @@ def _pieces_equal(pa, pb, ln, F):
         xt = (xpiece(el, tuple((a, o + (v - lo) * el) for a, o in p[2])),)
         return bequal(xt, t, F2)
     if p[0] == "m" and q[0] == "m":
-        if not (F.prove_eq(p[2] - q[2]) and F.prove_eq(p[3] - q[3]) and F.prove_eq(p[4] - q[4])):
+        if not (F.prove_eq((p[3] - p[2]) - (q[3] - q[2])) and F.prove_eq(p[4] - q[4])):
             return False
         var = fresh()
         v = Lin.sym(var)
         F2 = F.copy()
-        F2.add_ge(v - p[2])
-        F2.add_ge(p[3] - 1 - v)
-        return bequal(binst(p[5], p[1], v, F2), binst(q[5], q[1], v, F2), F2)
+        F2.add_ge(v)
+        F2.add_ge(p[3] - p[2] - 1 - v)
+        return bequal(binst(p[5], p[1], v + p[2], F2), binst(q[5], q[1], v + q[2], F2), F2)
     if p[0] == "i" and q[0] == "i":
         if p[1] == q[1]:
-            return bequal(p[3], q[3], F) and bequal(p[4], q[4], F)
+            F1 = F.copy()
+            F1.add_cond(p[1])
+            F0 = F.copy()
+            F0.add_cond(neg_cond(p[1]))
+            return (F1.inconsistent() or bequal(p[3], q[3], F1)) and (F0.inconsistent() or bequal(p[4], q[4], F0))
     if p[0] == "i":
         F1 = F.copy()
         F1.add_cond(p[1])
         F0 = F.copy()
         F0.add_cond(neg_cond(p[1]))
-        return bequal(p[3], (q,), F1) and bequal(p[4], (q,), F0)
+        return (F1.inconsistent() or bequal(p[3], (q,), F1)) and (F0.inconsistent() or bequal(p[4], (q,), F0))
     if q[0] == "i":
         return _pieces_equal(pb, pa, ln, F)
     return False
